@@ -201,6 +201,13 @@ func (x *Exec) callInner(st *State, call *ast.CallExpr) []Term {
 			if lit := x.closures[x.info.Uses[id]]; lit != nil {
 				return x.inlineClosure(st, call, lit)
 			}
+			// immutable package-level function variable initialised with a literal: inline it
+			if v, ok := x.info.Uses[id].(*types.Var); ok && x.w.isImmutable(v) && v.Pkg() == x.u.pkg.Types {
+				if lit, ok := ast.Unparen(x.w.globalInit[v]).(*ast.FuncLit); ok {
+					x.c().note("immutable package-level function variable inlined at its call site: " + v.Name())
+					return x.inlineClosure(st, call, lit)
+				}
+			}
 		}
 		// call through a function value: results havocked, closure-assigned variables havocked
 		for _, a := range call.Args {
@@ -565,6 +572,27 @@ func (x *Exec) intrinsic(st *State, call *ast.CallExpr, fn *types.Func, qual str
 	case "fmt.Sprintf", "fmt.Sprint", "strings.Join", "fmt.Sprintln":
 		c.note("string formatting modelled as fresh string: " + qual)
 		return []Term{c.fresh("str", sortStr)}, true
+	case "sort.Slice":
+		// sort.Slice(x, func(i, j int) bool { return x[i] < x[j] }) on an integer slice: sorted permutation.
+		// Any other comparison closure: the slice is havocked (sound, uninformative).
+		if len(call.Args) == 2 && x.isLvalue(call.Args[0]) {
+			cur := x.expr(st, call.Args[0])
+			if cur.Sort.Kind == KSlice && cur.Sort.Elem.Kind == KInt && x.isAscendingLess(call.Args[0], call.Args[1]) {
+				r := c.fresh("sorted", cur.Sort)
+				n := c.slLen(cur)
+				perm := c.fresh("perm", c.arrSort(sortInt, sortInt))
+				c.axiom(tEq(c.slLen(r), n))
+				c.axiom(Term{S: fmt.Sprintf("(forall ((a Int) (b Int)) (=> (and (<= 0 a) (< a b) (< b %s)) (<= (select %s a) (select %s b))))", n.S, c.slArr(r).S, c.slArr(r).S), Sort: sortBool})
+				c.axiom(Term{S: fmt.Sprintf("(forall ((a Int)) (! (=> (and (<= 0 a) (< a %s)) (and (<= 0 (select %s a)) (< (select %s a) %s) (= (select %s a) (select %s (select %s a))))) :pattern ((select %s a))))", n.S, perm.S, perm.S, n.S, c.slArr(r).S, c.slArr(cur).S, perm.S, c.slArr(r).S), Sort: sortBool})
+				c.axiom(Term{S: fmt.Sprintf("(forall ((a Int) (b Int)) (! (=> (and (<= 0 a) (< a b) (< b %s)) (not (= (select %s a) (select %s b)))) :pattern ((select %s a) (select %s b))))", n.S, perm.S, perm.S, perm.S, perm.S), Sort: sortBool})
+				c.note("assumed contract (dependency, unchecked): sort.Slice with an ascending '<' closure returns a sorted permutation")
+				x.assign(st, call.Args[0], r)
+				return nil, true
+			}
+			x.havocLvalue(st, call.Args[0], cur)
+			c.note("sort.Slice with an unrecognised comparison: slice havocked")
+			return nil, true
+		}
 	case "time.Now":
 		t := x.freshOf("now", x.typeOf(call))
 		if prev, ok := st.ghost["$now"]; ok {
@@ -741,4 +769,38 @@ func (x *Exec) appendCall(st *State, call *ast.CallExpr) Term {
 	r := c.mkSlice(base.Sort, app(sortInt, "+", ln, tInt(int64(len(call.Args)-1))), arr)
 	r.Go = gt
 	return c.define("append", r)
+}
+
+// isAscendingLess recognises func(i, j int) bool { return x[i] < x[j] } for the slice expression x.
+func (x *Exec) isAscendingLess(sl ast.Expr, fn ast.Expr) bool {
+	lit, ok := ast.Unparen(fn).(*ast.FuncLit)
+	if !ok || len(lit.Body.List) != 1 || lit.Type.Params == nil {
+		return false
+	}
+	var names []string
+	for _, f := range lit.Type.Params.List {
+		for _, n := range f.Names {
+			names = append(names, n.Name)
+		}
+	}
+	if len(names) != 2 {
+		return false
+	}
+	ret, ok := lit.Body.List[0].(*ast.ReturnStmt)
+	if !ok || len(ret.Results) != 1 {
+		return false
+	}
+	be, ok := ast.Unparen(ret.Results[0]).(*ast.BinaryExpr)
+	if !ok || be.Op.String() != "<" {
+		return false
+	}
+	want := x.exprText(sl)
+	l, lok := ast.Unparen(be.X).(*ast.IndexExpr)
+	r, rok := ast.Unparen(be.Y).(*ast.IndexExpr)
+	if !lok || !rok {
+		return false
+	}
+	li, _ := l.Index.(*ast.Ident)
+	ri, _ := r.Index.(*ast.Ident)
+	return li != nil && ri != nil && li.Name == names[0] && ri.Name == names[1] && x.exprText(l.X) == want && x.exprText(r.X) == want
 }
